@@ -348,6 +348,24 @@ def run(rep, tier="quick", replay=None, evidence_dir=None, collect_only=False):
             rep.ob("C03.R7", "%s appends each item in the loop and flushes once after it" % b.path, ok, "", b.loc())
     rep.floor("C03.R7", "extend* functions", n_ext, 3)
 
+    # ---------------- R8: the two halves of the pending-block state are reset together
+    rep.rule("C03.R8", "wherever a Writer method empties the pending buffer it also resets the pending count (buffer and num_values describe the same block)")
+    n8 = 0
+    for b in prog.by_crate["apache_avro"]:
+        if not b.path.startswith("writer::Writer") or b.kind == "Closure":
+            continue
+        clears = [bi for bi, t in calls_named(b, "std::vec::Vec::<T, A>::clear") if b.opdesc(t["args"][0]) == "self.buffer"]
+        if not clears:
+            continue
+        zeros = [bi for bi, si, st in b.stmts() if st["s"] == "assign" and st["pl"]["p"] and b.pldesc(st["pl"]) == "self.num_values"
+                 and st["rv"]["r"] == "use" and st["rv"]["o"].get("k") == "const" and st["rv"]["o"].get("int") == 0]
+        for c in clears:
+            n8 += 1
+            ok = any(b.dominates(z, c) or b.postdominates(z, c) for z in zeros)
+            rep.ob("C03.R8", "%s: buffer.clear() comes with num_values = 0" % b.path, ok,
+                   "the pending buffer is emptied while the pending count keeps its value: the next block announces more objects than it holds (the file cannot be read back)", b.loc(c))
+    rep.floor("C03.R8", "Writer methods that empty the pending buffer (flush, reset)", n8, 2)
+
     if collect_only:
         return rep
     rep.not_decided = ["that the values read back equal those appended for every history (needs C01 and offset arithmetic at run time)",
